@@ -56,6 +56,25 @@ CHECKS = {
         design_ref="DESIGN.md 5 C05",
         technique="TLA+ spec shared by both engines + TLC MC + TLC trace validation of twin executions + orphan-task detection",
     ),
+    "C10": dict(
+        category="model_checking",
+        text=("The spec keeps a single `cur` per instance (the model field) and derives every projection from it; TLC explores outside writes "
+              "(setter / direct) interleaved with events and restarts; real histories over all value kinds (str, int incl. 0 and negatives, "
+              "empty string, enum, tuple) x model shapes (default, attribute, property, class attribute, falsy objects) x state_field names "
+              "are validated: after every call the model field, current_state, current_state_value, is_active of every state, allowed "
+              "events and `sm.model is user_model` must equal the spec's projection."),
+        design_ref="DESIGN.md 5 C10",
+        technique="TLA+ spec + TLC MC with outside writes + TLC trace validation of the full projection after every call",
+    ),
+    "C11": dict(
+        category="model_checking",
+        text=("TLC checks InitOnlyFromNoState / ResumeRunsNothing / ActivatedBeforeFirstEvent over construction with every stored value, "
+              "start_value, re-activation and restart; real histories (construction over every state, 0-3 re-activations, restarts after "
+              "random histories, async machines with events before/after explicit activation, rtc on/off) are validated against the spec, "
+              "including every callback that runs inside the constructor."),
+        design_ref="DESIGN.md 5 C11",
+        technique="TLA+ spec + TLC MC with restart/activate actions + TLC trace validation of construction-time callbacks",
+    ),
     "C14": dict(
         category="model_checking",
         text=("Result rule (MkRes, Deliver) in the spec; real callbacks return unique objects so the recorder classifies an event's result by "
